@@ -211,9 +211,65 @@ def convert_gossip(s, rng):
     return {"cfg": fwd_scripts._cfg(rng, 3), "ops": ops}
 
 
-MODEL_CONVERTERS = {"GossipStatus": convert_gossip, "BatchOpen": convert_batch, "StaleReconcile": convert_stale, "MonBroadcast": convert_monb, "DisComplete": convert_disc}
+def convert_downreplay(s, rng):
+    """Behaviour of DownReplay.tla -> channet script (A - B - C): K payments A -> C offered over B-C one after the other,
+    each exchange on B-C advanced message by message as TLC chose, B's monitor write of the newest commitment in flight
+    or not; B is killed, C closes B-C on chain; the close is buried, C claims what the confirmed commitment gives it and B
+    restarts (chain catch-up first, then the manager replays the in-flight update) in the order TLC chose; the chain
+    settles."""
+    import fwd_scripts
+    ops = []
+    npay = 0
+    pay_of = {}
+    stage = {}
+    restarted = False
+    msgs = {1: [(1, 2), (1, 2)], 2: [(2, 1)], 3: [(2, 1)]}       # stage -> the deliveries that lead to the next stage
+    for st in s["steps"]:
+        op, h = st["op"], st["htlc"]
+        if op == "build":
+            ops.append({"op": "send", "from": 0, "to": 2, "amt": rng.choice(["big", "big", "justabove"])})
+            pay_of[h] = npay
+            npay += 1
+            ops += [{"op": "deliver", "from": f, "to": t} for (f, t) in [(0, 1), (0, 1), (1, 0), (1, 0), (0, 1)]]
+            ops.append({"op": "persist_mode", "node": 1, "mode": "inprogress" if st["inflight"] else "completed"})
+            ops.append({"op": "forward", "node": 1})
+            stage[h] = 1
+        elif op == "complete":
+            ops += [{"op": "persist_mode", "node": 1, "mode": "completed"}, {"op": "complete", "node": 1, "which": "all"}]
+        elif op == "advance":
+            ops += [{"op": "deliver", "from": f, "to": t} for (f, t) in msgs[stage[h]]]
+            stage[h] += 1
+            if stage[h] == 4 and rng.random() < 0.5:
+                ops.append({"op": "deliver", "from": 1, "to": 2})        # B's own revoke_and_ack (not modelled: either way)
+        elif op == "kill":
+            ops.append({"op": "kill", "node": 1})
+        elif op == "close":
+            ops.append({"op": "force_close", "a": 2, "b": 1})
+            ops.append({"op": "mine"})
+        elif op == "bury":
+            # the depth at which a node acts on a confirmed close (ANTI_REORG_DELAY = 6), and a little more
+            ops += [{"op": "mine"}] * rng.choice([5, 6, 7])
+            if restarted and rng.random() < 0.6:
+                ops.append({"op": "deliver_all"})
+        elif op == "cclaim":
+            # C knows every preimage: it claims through its manager what the manager holds, and on chain -- handing the
+            # preimage to its monitor -- what is an output of the commitment it confirmed
+            ops += [{"op": c, "pay": k} for k in range(npay) for c in ("claim", "claim_onchain")]
+            ops += [{"op": "mine"}] * rng.choice([1, 1, 2])
+        elif op == "restart":
+            restarted = True
+            ops.append({"op": "crash", "node": 1, "mgr": 0, "mon": "durable"})
+            ops.append({"op": "reconnect", "a": 0, "b": 1})
+            ops += fwd_scripts._deliveries(rng, [(0, 1), (1, 0)], rng.randrange(0, 5))
+    ops += [{"op": "hold_events", "node": i, "on": False} for i in range(3)]
+    ops += [{"op": "settle_chain"}, {"op": "proj", "final": True}]
+    return {"cfg": fwd_scripts._cfg(rng, 3), "ops": ops}
+
+
+MODEL_CONVERTERS = {"DownReplay": convert_downreplay, "GossipStatus": convert_gossip, "BatchOpen": convert_batch, "StaleReconcile": convert_stale, "MonBroadcast": convert_monb, "DisComplete": convert_disc}
 # (each behaviour of these small models is run in several concrete variations)
-MODEL_REPEAT = {"MonBroadcast": 6, "StaleReconcile": 2, "DisComplete": 3}
+MODEL_CAP = {"DownReplay": 320}
+MODEL_REPEAT = {"DownReplay": 1, "MonBroadcast": 6, "StaleReconcile": 2, "DisComplete": 3}
 
 
 def run_lines(path, run):
@@ -630,7 +686,7 @@ def run_check(pid, tier, seed, mc_cfgs, profiles, thorough_profiles, assumptions
     batches = [("tlc", ["--scripts", spath], 2)] if conv else []
     # behaviours of the small design models (BatchOpen, StaleReconcile, ...), each with its own translation to engine ops
     for mod, got in model_scripts.items():
-        mcap = 1500 if thorough else 260
+        mcap = 1500 if thorough else MODEL_CAP.get(mod, 260)
         if len(got) > mcap:
             got = rng.sample(got, mcap)
         made = [MODEL_CONVERTERS[mod](g, rng) for g in got for _ in range(MODEL_REPEAT.get(mod, 1))]
